@@ -28,9 +28,12 @@ STYLE = dict(ts="direct", tda="direct", bin="fancy", asc="fancy", dat="fancy", p
 FLOAT32 = ("ts", "tda", "bin")          # formats that store 4-byte reals
 F15 = "asc-first-row-missing"
 
-RULE = ("files: per format 2 (quick) / 4 (thorough) synthesised files with 1-5 series x 2-6 samples, names in non-alphabetical file "
-        "order (incl. prefixes of each other, a space, unit brackets where the format allows), value = 1000*file + 10*column + sample/4, "
-        "per-series time arrays for .h5/.tdms; histories: 1-3 files per database, first op a load (30% read=True), then <= 5 ops drawn "
+RULE = ("files: per format 3 (quick) / 5 (thorough) synthesised files with 1-5 series x 2-6 samples, names in non-alphabetical file "
+        "order (incl. prefixes of each other, a space, unit brackets where the format allows; one fixed file per format and a third "
+        "of the random ones with names that begin with / contain a word special elsewhere in the format: End1, ENDURANCE, Time, "
+        "uptime, fs2, Timer ...), value = 1000*file + 10*column + sample/4, per-series time arrays for .h5 (series of a file agreeing "
+        "in start only, in step only, in both, in neither) and .tdms (time channel per group, or waveform channels with their own "
+        "zero / positive / negative start offset and increment); histories: 1-3 files per database, first op a load (30% read=True), then <= 5 ops drawn "
         "from further loads and get/geta/getm/getd/getl/getda with exact names, full keys, '*', prefix wildcards, '<file>/*', lists of "
         "1-4 patterns in random order with repeats, index lists with repeats, store on/off; plus per file ordered subsets of the names "
         "(all 64 for <= 4 names in thorough, 14 corner subsets in quick) by name and by index on a fresh, an eagerly read and a partly "
@@ -194,13 +197,25 @@ def write_file(root, spec):
 
 POOL_PLAIN = ["b", "a", "ab", "c", "a1", "x", "Tn", "yy"]
 POOL_RICH = ["b", "a", "ab", "x y", "T [kN]", "c", "a1", "yy"]
+# legitimate series names that begin with / contain a word the format's reader treats specially elsewhere (key-file terminator
+# END, the time column / time channel, the ignored .mat fields).  Names the format itself reserves are NOT generated: a line
+# equal to END or starting with ** or ' in a key file, a second [Tt]ime* column in .dat/.mat, a channel called time in .tdms.
+POOL_KEYWORD = dict(ts=["End1", "end_b", "ENDURANCE", "Bend", "a END"], tda=["End1", "end_b", "ENDURANCE", "Bend", "a END"],
+                    dat=["uptime", "Endtime", "x#1"], csv=["Time", "time2", "uptime", "End1"], pkl=["Time", "time", "End1", "uptime"],
+                    h5=["Timer", "start", "delta", "End1"], mat=["fs2", "comment2", "uptime", "test_num2"],
+                    tdms=["Timer", "time2", "wf_increment", "End1"])
 
 
 def gen_spec(rng, fi, fmt, k=None, n=None, variant=None):
     """contents of file number `fi`: names in file order, common time, columns, per-series time (h5/tdms).
-    Variants 0 and 1 have a fixed structure (3 series; h5: data sets at top level and in a group; tdms: two groups with different
-    time arrays, variant 0 both with a time channel, variant 1 the first with waveform properties), later ones are random."""
-    k = k or rng.choice([1, 2, 3, 3, 4, 5])
+    Variants 0, 1 and 2 have a fixed structure, later ones are random:
+      0, 1: 3 series; h5: data sets at top level and in a group, two of them with the same start but a different step and two with
+            the same step but a different start; tdms: two groups, variant 0 both with a time channel (different time arrays),
+            variant 1 the first with waveform properties (per channel: a positive and a negative start offset, different steps);
+      2:    4 series of which the 1st and 3rd carry a name from POOL_KEYWORD (begins with / contains a word that is special
+            elsewhere in the format); tdms: both groups with waveform properties, offsets 0 and non-zero side by side."""
+    fixed = variant in (0, 1, 2)
+    k = k or (4 if variant == 2 else 3 if fixed else rng.choice([1, 2, 3, 3, 4, 5]))
     n = n or rng.randint(2, 6)
     if fmt == "asc":
         n = max(n, 3)       # with 2 samples the row lost to F15 leaves one row, which np.loadtxt returns 1-D (IndexError; same root cause)
@@ -208,39 +223,74 @@ def gen_spec(rng, fi, fmt, k=None, n=None, variant=None):
     time = [t0 + dt * i for i in range(n)]
     cols = [[1000.0 * (fi + 1) + 10.0 * (j + 1) + 0.25 * i for i in range(n)] for j in range(k)]
     own, wf = None, {}
+
+    def pick(pool):
+        """k names of the pool; variant 2 (and a third of the random files): keyword-like names at positions 0 and 2"""
+        kw = POOL_KEYWORD.get(fmt, [])
+        if not kw or not (variant == 2 or (not fixed and rng.random() < 0.35)):
+            return rng.sample(pool, k)
+        kws = rng.sample(kw, min(2, len(kw)))
+        out = rng.sample([nm for nm in pool if nm not in kws], k)
+        for pos, nm in zip((0, 2), kws):
+            if pos < k:
+                out[pos] = nm
+        return out
+
     if fmt in ("bin", "asc"):
         names = sima_names(k)
     elif fmt == "h5":
-        chosen = rng.sample(POOL_RICH, k)
+        chosen = pick(POOL_RICH)
         grp = set(nm for nm in chosen if rng.random() < 0.4)
         if variant in (0, 1) and k >= 2:
             grp = set(chosen[:1])
         names = sorted(nm for nm in chosen if nm not in grp) + ["g1\\" + nm for nm in sorted(grp)]   # h5py lists links by name
     elif fmt == "tdms":
-        chosen = rng.sample(POOL_RICH, k)
+        chosen = pick(POOL_RICH)
         cut = rng.randint(1, k)
         wf = {"g1": rng.random() < 0.5, "g2": rng.random() < 0.5}
         if variant in (0, 1) and k >= 2:
             cut, wf = k - 1, {"g1": variant == 1, "g2": False}
+        if variant == 2:
+            cut, wf = k - 2, {"g1": True, "g2": True}
         names = ["g1\\" + nm for nm in chosen[:cut]] + ["g2\\" + nm for nm in chosen[cut:]]
     elif fmt in ("csv", "pkl"):
-        names = rng.sample(POOL_RICH + ["T [kN/m]"], k)        # unit brackets with a '/' (not for h5/tdms: group separator)
+        names = pick(POOL_RICH + ["T [kN/m]"])        # unit brackets with a '/' (not for h5/tdms: group separator)
     elif fmt in ("ts", "tda", "dat"):
-        names = rng.sample(POOL_PLAIN + ["Vel[m/s]"], k)
+        names = pick(POOL_PLAIN + ["Vel[m/s]"])
     else:
-        names = rng.sample(POOL_PLAIN, k)
+        names = pick(POOL_PLAIN)
     if fmt == "h5":
-        own = []
-        for j in range(k):
-            s, d = t0 + 0.5 * j, rng.choice([0.25, 0.5, 1.0])
-            own.append([s + d * i for i in range(n)])
+        # every data set has its own (start, delta): series of one file may agree in the start, in the step, in both or in neither
+        d0, d1 = rng.sample([0.25, 0.5, 1.0], 2)
+        if variant == 0:
+            par = [(t0, d0), (t0, d1), (t0 + 0.5, d0)]
+        elif variant == 1:
+            par = [(t0, d0), (t0 + 0.5, d0), (t0, d1)]
+        else:
+            par = []
+        while len(par) < k:
+            par.append((t0 + rng.choice([0.0, 0.0, 0.5, 1.5]), rng.choice([d0, d0, d1, 2.0])))
+        own = [[s + d * i for i in range(n)] for s, d in par[:k]]
     if fmt == "tdms":
-        per = {}
+        # a group with a time channel has one time array (never the one of the other group); waveform channels carry their own
+        # start offset (zero, positive, negative) and increment
+        own = []
         s0 = rng.choice([0.0, 1.0, 2.5])
-        for g, s in (("g1", s0), ("g2", s0 + 0.5)):         # the groups never share a time array
+        offs = {"g1": [1.5, -0.5, 0.0, 2.5], "g2": [0.0, -1.0, 3.0, 0.5]}
+        seen = {"g1": 0, "g2": 0}
+        pergroup = {}
+        for g, s in (("g1", s0), ("g2", s0 + 0.5)):
             d = rng.choice([0.25, 0.5, 1.0])
-            per[g] = [s + d * i for i in range(n)]
-        own = [per[nm.split("\\")[0]] for nm in names]
+            pergroup[g] = [s + d * i for i in range(n)]
+        for nm in names:
+            g = nm.split("\\")[0]
+            if wf.get(g):
+                o = offs[g][seen[g] % 4] if fixed else rng.choice(offs[g])
+                d = rng.choice([0.25, 0.5, 1.0])
+                seen[g] += 1
+                own.append([o + d * i for i in range(n)])
+            else:
+                own.append(pergroup[g])
     return dict(fmt=fmt, base="f%d_elmfor" % fi, dir="d%d" % (fi % 2), names=names, time=time, cols=cols, own=own, tdms_wf=wf, fi=fi)
 
 
@@ -616,7 +666,7 @@ def run(chk):
     root = tempfile.mkdtemp(prefix="qv01_")
     try:
         # ---- files
-        nvar = 2 if chk.quick else 4
+        nvar = 3 if chk.quick else 5
         specs, paths = [], []
         for v in range(nvar):
             for fmt in FORMATS:
